@@ -25,6 +25,7 @@ pub static SCENARIO: Scenario = Scenario {
         "the verifier is otherwise matching (right key, footer, assertion): mismatches are C04-C07",
         "an altered string that coincides with another authentic token of the same run is not judged (counted as unjudged)",
     ],
+    exhaustive: &["per sampled token (message <= 300 B): all single-bit flips of the decoded payload", "per sampled token: all single-bit flips of the decoded footer", "per sampled token: every character position x {next base64url symbol, A, ., =, non-ASCII}", "per sampled token: every proper prefix", "per sampled token: boundary shifts +-1..4, listed extensions, listed footer edits"],
 };
 
 pub fn validators_for_data() -> Vec<ValidatorSpec> {
@@ -130,7 +131,65 @@ pub fn emit_family(rb: &mut RunBuilder, r: &mut Rng, family: u64, src: u32, othe
     }
 }
 
+/// long tokens: integrity must cover every byte, also far beyond the first few kilobytes.  Complete
+/// sweeps are too expensive here; faults are sampled with a bias to 4 KiB / 64 KiB boundaries and to
+/// the last bytes in front of the tag / signature.
+fn gen_long(ctx: &GenCtx, i: u64) -> Option<Run> {
+    let mut r = run_rng(ctx, "C03", i);
+    let proto = *r.pick(&[Proto::V1L, Proto::V2L, Proto::V3L, Proto::V4L, Proto::V2P, Proto::V4P, Proto::V4L, Proto::V2L]);
+    let mut rb = RunBuilder::new("C03", "corrupt-in-transit/long-token", ctx.verif_seed, i);
+    let now = gen_now(&mut r);
+    let key = rb.key(key_for(proto, &mut r));
+    let mlen = *r.pick(&[4096usize, 4097, 8192, 16_385, 65_536, 65_537, 70_001, 131_073]);
+    let layer = if r.chance(1, 2) { Layer::Core } else { Layer::Generic };
+    let msg = ascii!(r, mlen);
+    let footer = if r.chance(1, 2) { Some(ascii!(r, 1 + r.usize(5000))) } else { None };
+    let opts = IssueOpts { proto, layer, key, footer: footer.clone(), assertion: None, now, message: msg.clone(), json_payload: if layer == Layer::Core && r.chance(1, 2) { Some(json!({"data": msg})) } else { None }, extra_claims: vec![] };
+    let t = issue(&mut rb, &mut r, opts);
+    let mut spec = plain_spec(&t, if layer == Layer::Core { Layer::Core } else { random_layer(&mut r) });
+    if spec.layer != Layer::Core {
+        spec.validators = validators_for_data();
+    }
+    let v = rb.verifier(spec);
+    let at = t.issued_at + 1_000_000;
+    let body = mlen + if layer == Layer::Core { 0 } else { 20 };
+    let total = proto.nonce_len() + body + proto.tail_len();
+    let mut outs = vec![];
+    let mut positions: Vec<usize> = vec![0, 1, proto.nonce_len(), proto.nonce_len() + 1, total - proto.tail_len() - 1, total - proto.tail_len(), total - 1];
+    for k in [4095usize, 4096, 4097, 8191, 8192, 16_383, 16_384, 32_768, 65_535, 65_536, 65_537, 131_072] {
+        if k < total {
+            positions.push(k);
+            positions.push(proto.nonce_len() + k);
+        }
+    }
+    for _ in 0..24 {
+        positions.push(r.usize(total));
+    }
+    for p in positions {
+        if p < total {
+            outs.push(rb.fault(t.msg, FaultKind::BitFlip { seg: Seg::Payload, bit: p * 8 + r.usize(8) }, None));
+        }
+    }
+    if let Some(f) = &footer {
+        for p in [0usize, f.len() / 2, f.len().saturating_sub(1), 4095.min(f.len() - 1)] {
+            outs.push(rb.fault(t.msg, FaultKind::BitFlip { seg: Seg::Footer, bit: p * 8 }, None));
+        }
+    }
+    let text_len = proto.header().len() + (total * 4 + 2) / 3;
+    for n in [text_len / 2, text_len - 1, text_len - 2, 4096, 65_536] {
+        outs.push(rb.fault(t.msg, FaultKind::Truncate { n }, None));
+    }
+    for m in outs {
+        rb.deliver(m, v, at);
+    }
+    rb.deliver(t.msg, v, at);
+    Some(rb.finish())
+}
+
 fn gen(ctx: &GenCtx, i: u64) -> Option<Run> {
+    if i % 12 == 11 {
+        return gen_long(ctx, i);
+    }
     let mut r = run_rng(ctx, "C03", i);
     let proto = if i < 8 { ALL_PROTOS[i as usize] } else { weighted_proto(&mut r) };
     let layer = random_layer(&mut r);
